@@ -27,6 +27,7 @@ func runC05(c *Ctx) {
 	c05Wire(c, "C05.wire")
 	c05Order(c)
 	c05Sorting(c, "C05.sorting")
+	c05Boundary(c)
 	// statistics state carried across row groups
 	ci := newChainIndex(c.P)
 	for _, s := range c17ResetSpecs() {
@@ -335,12 +336,23 @@ func c05Order(c *Ctx) {
 			okMinO, _ := derives(args[3], minF)
 			okMaxO, _ := derives(args[4], maxF)
 			c.Check(rule, tn+".ColumnIndex wires min/max values and orders in position", call.Pos(), okMin && okMax && okMinO && okMaxO, "the values or orders passed to the shared column-index constructor are not (minValues, maxValues, order(minValues), order(maxValues)): bounds or boundary order of the index are swapped or computed from the wrong array")
+			// the published arrays are detached from the indexer: Reset truncates
+			// minValues/maxValues in place and the next row group appends over them
+			// while the column index of this row group is still held by the writer
+			var alias []string
+			for k, a := range []ssa.Value{args[1], args[2]} {
+				if bad := ownedValueProblem(p, a, nil, 0); bad != "" {
+					alias = append(alias, []string{"min", "max"}[k]+" values are "+bad)
+				}
+			}
+			c.Check("C05.detach", tn+".ColumnIndex hands out arrays of its own", call.Pos(), len(alias) == 0, tn+".ColumnIndex: "+strings.Join(alias, "; ")+": the indexer's Reset truncates that storage in place and the pages of the next row group overwrite the bounds recorded in the column index of the previous one")
 			// the two order functions are the same function
 			f3, f4 := orderCallee(args[3]), orderCallee(args[4])
 			c.Check(rule, tn+".ColumnIndex uses one order function for both arrays", call.Pos(), f3 != "" && f3 == f4, "min and max orders are computed by different functions ("+f3+" / "+f4+")")
 		})
 	}
 	c.Stats[rule+".indexers_with_bounds"] = n
+	c.Min("C05.detach", 10)
 	// boundaryOrderOf truth table: Ascending/Descending only when minOrder == maxOrder
 	if obj := p.LookupFunc("boundaryOrderOf"); c.Anchor(rule, "boundaryOrderOf", obj != nil) {
 		fn := p.SSAFunc(obj)
@@ -402,4 +414,94 @@ func c05Sorting(c *Ctx, rule string) {
 		runWire(c, rule, wireSpec{Fn: fnKey, Sink: "field:format.SortingColumn.NullsFirst", Allowed: []string{"call:(SortingColumn).NullsFirst"}})
 	}
 	c.Min(rule, 4)
+}
+
+// c05Boundary: the boundary order a merged column index claims across two
+// chunks is decided on the two pages adjacent across the boundary — the last
+// page (with bounds) of the earlier chunk and the first of the later one — and
+// with the bounds that define the order: ascending needs max(earlier) <=
+// min(later), descending needs min(earlier) >= max(later). The rule classifies
+// every MinValue/MaxValue call on an element of the chunk-index slice by
+// (element i or i+1, page index counted down from NumPages or up from 0).
+func c05Boundary(c *Ctx) {
+	p := c.P
+	rule := "C05.boundary"
+	want := map[string]map[string]string{
+		"(*multiColumnIndex).IsAscending":  {"earlier": "MaxValue", "later": "MinValue"},
+		"(*multiColumnIndex).IsDescending": {"earlier": "MinValue", "later": "MaxValue"},
+	}
+	for _, k := range []string{"(*multiColumnIndex).IsAscending", "(*multiColumnIndex).IsDescending"} {
+		obj := p.LookupFunc(k)
+		if !c.Anchor(rule, k, obj != nil) {
+			continue
+		}
+		fn := p.SSAFunc(obj)
+		// which chunk does a receiver value denote?
+		chunkOf := func(recv ssa.Value) string {
+			for _, o := range Origins(recv, OriginOpts{}) {
+				_ = o
+			}
+			u, ok := recv.(*ssa.UnOp)
+			if !ok {
+				return ""
+			}
+			ia, ok := u.X.(*ssa.IndexAddr)
+			if !ok {
+				return ""
+			}
+			if b, ok := ia.Index.(*ssa.BinOp); ok && b.Op == token.ADD {
+				if k, ok := b.Y.(*ssa.Const); ok && k.Value != nil && k.Value.ExactString() == "1" {
+					return "later"
+				}
+			}
+			return "earlier"
+		}
+		type use struct {
+			chunk, method, page string
+			pos                 token.Pos
+		}
+		var uses []use
+		allCalls(fn, false, func(_ *ssa.Function, call ssa.CallInstruction) {
+			cc := call.Common()
+			if !cc.IsInvoke() || (cc.Method.Name() != "MinValue" && cc.Method.Name() != "MaxValue") || len(cc.Args) != 1 {
+				return
+			}
+			chunk := chunkOf(cc.Value)
+			if chunk == "" {
+				return
+			}
+			page := "first"
+			for _, o := range Origins(cc.Args[0], OriginOpts{ThroughBinOp: true}) {
+				if o.Kind == OrgCall && o.Call.Common().IsInvoke() && o.Call.Common().Method.Name() == "NumPages" {
+					page = "last"
+					if chunkOf(o.Call.Common().Value) != chunk {
+						page = "last page of the other chunk"
+					}
+				}
+			}
+			uses = append(uses, use{chunk, cc.Method.Name(), page, call.Pos()})
+		})
+		var probs []string
+		seen := map[string]bool{}
+		for _, u := range uses {
+			seen[u.chunk] = true
+			if w := want[k][u.chunk]; u.method != w {
+				probs = append(probs, "reads "+u.method+" of the "+u.chunk+" chunk where the order is defined by its "+w+" ("+p.Pos(u.pos)+")")
+			}
+			wantPage := "last"
+			if u.chunk == "later" {
+				wantPage = "first"
+			}
+			if u.page != wantPage {
+				probs = append(probs, "takes the bound of the "+u.chunk+" chunk from its "+u.page+" page instead of its "+wantPage+" page, which is the one adjacent to the boundary ("+p.Pos(u.pos)+")")
+			}
+		}
+		if len(uses) != 2 || !seen["earlier"] || !seen["later"] {
+			probs = append(probs, "expected one bound of each of the two chunks, found "+itoa(len(uses))+" bound reads")
+		}
+		sort.Strings(probs)
+		c.Check(rule, k+" decides the order across chunks on the adjacent pages with the defining bounds", fn.Pos(), len(probs) == 0,
+			k+" "+strings.Join(probs, "; ")+": the merged index claims a boundary order that does not hold (or denies one that does), and readers that trust it skip pages containing matching values")
+	}
+	c.Min(rule, 2)
 }
